@@ -33,7 +33,7 @@ UNITS.append(Unit('front.ActionSequence_.call4', ['C14', 'C02'], 'front',
             'for (type_t FCT = 0; FCT != g_nseq; ++FCT)\n__CPROVER_assigns(FCT, g_anext)\n__CPROVER_loop_invariant(0 <= FCT && FCT <= g_nseq && g_anext == FCT)\n__CPROVER_decreases(g_nseq - FCT)\n{ @0 }',
     must_contain=[(FR, 'Call2 ( EVT & evt , FSM & fsm , SourceState & src , TargetState & tgt ) : evt_ ( evt ) , fsm_ ( fsm ) , src_ ( src ) , tgt_ ( tgt ) { }'),
                   (FR, 'for_each < Sequence , wrap < _1 > > ( Call2 < EVT , FSM , SourceState , TargetState > ( evt , fsm , src , tgt ) ) ;')],
-    force_loop_contracts=True, replay=['fronts', 'order']))
+    force_loop_contracts=True, replay=['euml', 'fronts', 'order']))
 UNITS.append(Unit('front.Defer.call', ['C05', 'C14'], 'front', Part(FR, ['struct Defer'], 'void operator ( ) ( EVT & evt , FSM & fsm , SourceState & , TargetState & ) const'),
     'void defer_call(event_t evt, fsm_t* fsm, stref_t src, stref_t tgt)', 'functor_row.spec.h', defines=['UNIT_DEFER=1'],
     xform=back_xform([], refparams=(), rewrites=[dict(name='member-call', pat='fsm . defer_event (', rep='fsm_defer_event ( fsm ,', min=0, max=1)]), replay=['defer']))
@@ -58,4 +58,4 @@ UNITS.append(Unit('front.ActionSequence_.call3', ['C14', 'C02'], 'front',
             'for (type_t FCT = 0; FCT != g_nseq; ++FCT)\n__CPROVER_assigns(FCT, g_anext)\n__CPROVER_loop_invariant(0 <= FCT && FCT <= g_nseq && g_anext == FCT)\n__CPROVER_decreases(g_nseq - FCT)\n{ @0 }',
     must_contain=[(FR, 'Call ( EVT & evt , FSM & fsm , STATE & state ) : evt_ ( evt ) , fsm_ ( fsm ) , state_ ( state ) { }'),
                   (FR, 'for_each < Sequence , wrap < _1 > > ( Call < EVT , FSM , STATE > ( evt , fsm , state ) ) ;')],
-    force_loop_contracts=True, replay=['fronts', 'order']))
+    force_loop_contracts=True, replay=['euml', 'fronts', 'order']))
